@@ -237,7 +237,8 @@ def worker_main(pid, args):
             if kf is not None:
                 out["known"][kf["id"]] = out["known"].get(kf["id"], 0) + 1
             elif len(out["violations"]) < 20:
-                out["violations"].append({"index": idx, "scenario": sc, "violation": v})
+                out["violations"].append({"index": idx, "scenario": sc, "violation": v,
+                                          "history": {"seed": seed, "tier": tier, "start": start, "step": step, "upto": idx}})
 
     # enumerated strata are swept by worker 0 .. n-1 round-robin
     enum = prop.enumerated(tier)
@@ -336,7 +337,7 @@ def shrink(prop, scenario, oracle, budget_s=60.0):
 # ------------------------------------------------------------------------------------
 # replay files
 # ------------------------------------------------------------------------------------
-def write_replay(prop, scenario, violation, seed, index, shrink_tests=None, original=None):
+def write_replay(prop, scenario, violation, seed, index, shrink_tests=None, original=None, history=None):
     d = os.path.join(REPLAY_DIR, prop.id)
     os.makedirs(d, exist_ok=True)
     slug = "".join(ch if ch.isalnum() else "_" for ch in violation["oracle"].split(".", 1)[-1])
@@ -347,9 +348,32 @@ def write_replay(prop, scenario, violation, seed, index, shrink_tests=None, orig
            "expect": {"class": violation["oracle"], "message": violation["msg"][:500],
                       "step": violation.get("step")},
            "digest": r["digest"], "shrink_tests": shrink_tests}
+    if history:
+        doc["history"] = history
+        doc["history_note"] = ("the violation depends on state left in the process by the runs the worker executed before this "
+                               "scenario; replay re-runs that prefix (regenerated from the seed) first")
     with open(path, "w") as fh:
         json.dump(doc, fh, indent=1, sort_keys=True, default=str)
     return path
+
+
+def run_history_prefix(prop, h):
+    """Re-run, in this interpreter, the scenarios the worker had executed before the failing one (same order): a violation
+    that depends on state left behind by earlier runs in the same process (module-level caches, mutated defaults) is
+    reproducible only with that prefix."""
+    step, start = h["step"], h["start"]
+    upto = h["upto"]
+    for j, sc in enumerate(prop.enumerated(h["tier"])):
+        if j % step != start % step:
+            continue
+        if isinstance(upto, str) and upto == "e%d" % j:
+            return
+        run_scenario(prop, sc)
+    if isinstance(upto, str):
+        return
+    for idx in range(start, upto, step):
+        st = Streams(run_seed(h["seed"], prop.id, idx))
+        run_scenario(prop, prop.gen(st, h["tier"], idx))
 
 
 def replay_file(path, quiet=False):
@@ -357,6 +381,8 @@ def replay_file(path, quiet=False):
     with open(path) as fh:
         doc = json.load(fh)
     prop = get_prop(doc["property"])
+    if doc.get("history"):
+        run_history_prefix(prop, doc["history"])
     r = run_scenario(prop, doc["scenario"])
     rep = any(v["oracle"] == doc["oracle"] for v in r["violations"])
     if not quiet:
@@ -504,6 +530,14 @@ def check_main(pid, tier, seed, nworkers=None):
         path = write_replay(prop, small, viol[0], seed, v["index"], shrink_tests=ntests)
         ok, outtxt = replay_in_fresh_interpreter(path)
         shrink_stats.append({"oracle": oracle, "tests": ntests, "replay": path, "reproduced": ok})
+        if not ok and v.get("history"):
+            # not reproducible from the scenario alone: try again with the worker's history as prefix (state leaked between runs)
+            path = write_replay(prop, v["scenario"], v["violation"], seed, v["index"], shrink_tests=ntests, history=v["history"])
+            ok, outtxt = replay_in_fresh_interpreter(path, hashseed=H(seed, "hashseed", v["history"]["start"]) % 4294967295)
+            shrink_stats.append({"oracle": oracle, "with_history_prefix": True, "replay": path, "reproduced": ok})
+            if ok:
+                small, viol = v["scenario"], [v["violation"]]
+                kf = None
         if not ok:
             print("HARNESS-ERROR property=%s violation of %s did not reproduce from %s" % (pid, oracle, path))
             print(outtxt[-2000:])
